@@ -27,6 +27,7 @@ type gatedCfg struct {
 	Variant    string `json:"variant"`     // cstart: fresh | stopped | draining
 	Starters   int    `json:"starters"`    // cstart: number of concurrent Start callers
 	Group      bool   `json:"group"`       // watchers: pool created through a Group
+	PanicOpt   bool   `json:"panic_opt"`   // options: WithPanicOnSubmitAfterShutdown(true); callers recover the panic and continue
 }
 
 // bigWorkerCounts: worker counts around the default (2*NumCPU) that are not already among the literal counts
@@ -85,7 +86,7 @@ func effWorkers(w int) int {
 }
 
 func (g gatedCfg) key() string {
-	return fmt.Sprintf("%s/%s/w%d/c%v/p%d/%s/ft%v/sd%v/rs%v/ps%d/pd%v/cb%s", g.Kind, g.Point, g.Workers, g.Cancel, g.Preload, g.Order, g.FromTask, g.Shutdown, g.Restart, g.PopSkip, g.PushDuring, g.Callback) + fmt.Sprintf("/%s/s%d/g%v", g.Variant, g.Starters, g.Group)
+	return fmt.Sprintf("%s/%s/w%d/c%v/p%d/%s/ft%v/sd%v/rs%v/ps%d/pd%v/cb%s", g.Kind, g.Point, g.Workers, g.Cancel, g.Preload, g.Order, g.FromTask, g.Shutdown, g.Restart, g.PopSkip, g.PushDuring, g.Callback) + fmt.Sprintf("/%s/s%d/g%v/po%v", g.Variant, g.Starters, g.Group, g.PanicOpt)
 }
 
 // allGated enumerates the configuration space (deterministic order).
@@ -199,7 +200,7 @@ func gatedList(rng *rand.Rand, quick bool) []gatedCfg {
 		}
 	}
 	for _, i := range rng.Perm(len(all)) {
-		if len(out) >= 620 {
+		if len(out) >= 680 {
 			break
 		}
 		if g := all[i]; !seen[g.key()] {
@@ -219,14 +220,16 @@ type gtask struct {
 }
 
 type gatedResult struct {
-	Cfg      gatedCfg  `json:"cfg"`
-	Out      outcome   `json:"outcome"`
-	Restart  *outcome  `json:"restart_outcome,omitempty"`
-	Steps    []string  `json:"steps"`
-	Findings []finding `json:"-"`
-	Inconcl  string    `json:"inconclusive,omitempty"`
-	AllBusy  bool      `json:"all_workers_busy_at_shutdown"`
-	Workers  int       `json:"effective_workers"`
+	Cfg             gatedCfg  `json:"cfg"`
+	Out             outcome   `json:"outcome"`
+	Restart         *outcome  `json:"restart_outcome,omitempty"`
+	Steps           []string  `json:"steps"`
+	Findings        []finding `json:"-"`
+	Inconcl         string    `json:"inconclusive,omitempty"`
+	AllBusy         bool      `json:"all_workers_busy_at_shutdown"`
+	RejectedSubmits int       `json:"rejected_submits"`
+	RecoveredPanics int       `json:"recovered_submit_panics"`
+	Workers         int       `json:"effective_workers"`
 }
 
 // runGated executes one schedule. Every wait is structural (gdump); nothing
@@ -236,7 +239,7 @@ type gatedResult struct {
 // detector gives the verdict (confirm children only); preBlock receives the
 // state observed just before blocking.
 func runGated(cfg gatedCfg, preBlock func(outcome, []string)) (res gatedResult) {
-	if cfg.Kind == "watchers" || cfg.Kind == "cstart" {
+	if cfg.Kind == "watchers" || cfg.Kind == "cstart" || cfg.Kind == "options" {
 		return runExtra(cfg)
 	}
 	blockMain := preBlock != nil
